@@ -10,4 +10,7 @@ let table : (string * (Model.sx -> Model.sx)) list = [
   "admit", Model.check_admit;
   "pool", Model.check_pool;
   "mempool", Model.check_mempool;
+  "wire", Model.check_wire;
+  "signbytes", Model.check_signbytes;
+  "rlp", Model.check_rlp;
 ]
